@@ -170,6 +170,25 @@ class Condition(object):
             self._lock._acquire_restore(st)
         return ok
 
+    def wait_for(self, predicate, timeout=None):
+        """as threading.Condition.wait_for: wait until predicate() is true or the time-out passes; returns the last predicate value"""
+        s = _sim()
+        endtime = None
+        result = predicate()
+        while not result:
+            if timeout is not None:
+                now = s.now if s is not None else 0.0
+                if endtime is None:
+                    endtime = now + timeout
+                waittime = endtime - now
+                if waittime <= 0:
+                    break
+                self.wait(waittime)
+            else:
+                self.wait(None)
+            result = predicate()
+        return result
+
     def notify(self, n=1):
         for tok in self._waiters[:n]:
             tok.set = True
@@ -369,8 +388,76 @@ def make_time_module():
 EPOCH = 1000000.0
 
 
+class Semaphore(object):
+    def __init__(self, value=1):
+        if value < 0:
+            raise ValueError("semaphore initial value must be >= 0")
+        self._value = value
+
+    def acquire(self, blocking=True, timeout=None):
+        s = _sim()
+        if s is not None:
+            s.point("sem.acquire")
+        if self._value > 0:
+            self._value -= 1
+            return True
+        if not blocking or s is None:
+            return False
+        ok = s.block(lambda: self._value > 0, timeout, "semaphore")
+        if ok:
+            self._value -= 1
+        return ok
+
+    def release(self, n=1):
+        self._value += n
+        s = _sim()
+        if s is not None:
+            s.point("sem.release")
+
+    __enter__ = acquire
+
+    def __exit__(self, *a):
+        self.release()
+
+
+class BoundedSemaphore(Semaphore):
+    def __init__(self, value=1):
+        Semaphore.__init__(self, value)
+        self._initial = value
+
+    def release(self, n=1):
+        if self._value + n > self._initial:
+            raise ValueError("Semaphore released too many times")
+        Semaphore.release(self, n)
+
+
+class Timer(Thread):
+    def __init__(self, interval, function, args=None, kwargs=None):
+        Thread.__init__(self)
+        self._interval, self._function = interval, function
+        self._targs, self._tkwargs = args or (), kwargs or {}
+        self._finished = Event()
+        self._target = self._run_timer
+
+    def cancel(self):
+        self._finished.set()
+
+    def _run_timer(self):
+        self._finished.wait(self._interval)
+        if not self._finished.is_set():
+            self._function(*self._targs, **self._tkwargs)
+        self._finished.set()
+
+
 def make_threading_module():
+    import threading as _real_threading
     m = types.ModuleType("threading")
+    m.Semaphore = Semaphore
+    m.BoundedSemaphore = BoundedSemaphore
+    m.Timer = Timer
+    m.local = _real_threading.local          # every task is a real thread: thread-local storage is the real thing
+    m.main_thread = current_thread
+    m.TIMEOUT_MAX = _real_threading.TIMEOUT_MAX
     m.Thread = Thread
     m.Lock = Lock
     m.RLock = RLock
